@@ -47,15 +47,14 @@ ENTRY = {'assumptions': ['events arrive as the TransportService contract allows 
                "bounded-channel model a parked handler's effects are applied when it parks and only its post-await calls are held back (nothing else "
                'runs meanwhile, the protocol state is not dumped while parked); one handle.next() sees only the events that are inside the channel '
                '(poll_events). The main model treats the HandshakeService as membership bits and lets a handshake event happen at any time for a '
-               'held substream (over-approximation: the stale-ready behaviour of the real service is covered by its theorems); the component model '
-               'HSModel.v is tied to the real service by its own case stream. Defects repaired in the repo (fix: commits): stale shutdown notice, '
-               'superseded validation request, failed substream id adopted by the next open request (former class 2), NotificationStreamClosed '
-               'reported late by the Connection task only (former class 1); finding recorded: class 3 (pinned by an upstream integration test); '
-               'observations (outside the property text): a stale 5 s timer cancels a newer attempt early; while a failed substream id is still '
-               'remembered (PeerState::Closed{pending_open}) inbound substreams are refused until the user opens or the peer reconnects; '
-               'HandshakeService::remove_* leave a completed handshake queued in `ready`, which pop_event later matches with a NEW substream of the '
-               'same peer and direction (Negotiated without any I/O on it; the unread handshake of the new substream is later delivered as a '
-               "notification: C12's subject).",
+               'held substream (the original service could also hand out a result queued for a removed substream: repaired, F-C12b); the component '
+               'model HSModel.v is tied to the real service by its own case stream. Defects repaired in the repo (fix: commits): stale shutdown '
+               'notice, superseded validation request, failed substream id adopted by the next open request (former class 2), '
+               'NotificationStreamClosed reported late by the Connection task only (former class 1); finding recorded: class 3 (pinned by an '
+               'upstream integration test); observations (outside the property text): a stale 5 s timer cancels a newer attempt early; while a '
+               'failed substream id is still remembered (PeerState::Closed{pending_open}) inbound substreams are refused until the user opens or the '
+               'peer reconnects. Formerly observed here, now repaired as F-C12b: HandshakeService::remove_* left a completed handshake queued in '
+               '`ready`, which pop_event later matched with a NEW substream of the same peer and direction.',
  'level_text': 'Proof about the model (all configurations, unbounded histories), tied to the Rust code by a per-event differential run. Event '
                'grammar for EVERY history, slow Connection tasks included (C11_alternation: Opened/Closed alternate, no OpenFailure and every '
                'NotificationReceived between the two; invariant C11_user_view_is_protocol_view; C11_closed_on_disconnect, C11_closed_on_user_close '
@@ -73,7 +72,8 @@ ENTRY = {'assumptions': ['events arrive as the TransportService contract allows 
                'C11_event_channel_step, C11_poll_delivers_oldest, C11_capacity_only_delays); the HandshakeService as a component (HSModel.v): '
                'handshake events only for substreams it holds (C11_hs_events_only_for_held_substreams: the guard hsI/hsO of the main model as a '
                'theorem of the component), C11_hs_negotiated_hands_out, C11_hs_error_keeps_substream, C11_hs_timeout_fails, C11_hs_keys_unique, '
-               'C11_hs_removed_is_silent; C11_hs_stale_ready_refuted is an observation.',
+               'C11_hs_removed_is_silent; C11_hs_stale_ready_refuted is the defect of the original service (F-C12b, repaired in the repo by the C12 '
+               'round), C11_hs_stale_ready_repaired / C11_hs_calls_forget / C11_hs_removed_stays_silent the repaired behaviour.',
  'rule': 'seeded histories of <= 70 (quick) / <= 150 (thorough) events over <= 3 peers with both auto-accept settings, dialing on/off, '
          'dialable/undialable peers: per-peer scripts that open a stream (user-initiated, remote-initiated, simultaneous) and end it (user close, '
          'remote close, disconnect, slow closes of every kind: the Connection task of a closed stream finishes after a new stream to the peer was '
